@@ -133,6 +133,7 @@ def run(chk):
         chk.fail_closed(rid, "parse_alias is no longer part of a recursive cycle: re-derive the rule")
 
     rule_r32c(chk)
+    rule_r32d(chk)
 
 
 FILTER_MOD = "datadog::grok::grok_filter::"
@@ -223,3 +224,45 @@ def rule_r32c(chk):
                               "%s:%s casts a float to %s and keeps the result without a dominating exactness test (`(x as i64) as f64 == x` or a range check): "
                               "`as` saturates, so a numeric grok filter applied to e.g. `1e30` yields i64::MAX instead of the matched number"
                               % (b.file, st.get("ln"), rv.get("to")), detail=d)
+
+
+PARSE_RULES = "datadog::grok::parse_grok_rules::parse_grok_rules"
+import re as _re
+STR_REWRITE = _re.compile(r"^(core|std|alloc)::str::<impl str>::(trim\w*|strip_\w+|replace\w*|to_\w*case|to_ascii_\w+|split\w*|rsplit\w*|get\w*|lines|repeat)$"
+                          r"|^std::string::String::(truncate|pop|remove|retain|drain|replace_range|insert\w*|push\w*)$")
+
+
+def rule_r32d(chk):
+    """the rule text reaches parse_pattern as written: the entry point does not rewrite it (trim, case folding, slicing, replacement)"""
+    facts = chk.facts
+    rid = "R32d"
+    chk.rule(rid, "parse_grok_rules hands each rule text to parse_pattern without rewriting it", floor=1)
+    if not facts.has(PARSE_RULES):
+        chk.fail_closed(rid, "anchor not found: %s" % PARSE_RULES)
+        return
+    fam = facts.family(PARSE_RULES)
+    # positive control for the callee pattern: the same pattern must match somewhere in the grok module (it does: key/value trimming in parse_grok.rs)
+    ctrl = 0
+    for n in facts.names(lambda n: n.startswith("datadog::grok::") and not n.startswith(PARSE_RULES)):
+        b = facts.body(n)
+        ctrl += sum(1 for _bb, t in b.calls() if STR_REWRITE.match(b.callee(t) or ""))
+    chk.extra["r32d_pattern_control_matches_elsewhere_in_grok"] = ctrl
+    if ctrl == 0:
+        chk.fail_closed(rid, "the string-rewrite callee pattern matches nothing in datadog::grok (expected the key/value trimming of parse_grok.rs): callee naming changed, re-anchor")
+        return
+    sinks = 0
+    for n in sorted(fam):
+        b = facts.body(n)
+        for bb, t in b.calls():
+            cal = b.callee(t) or ""
+            if cal.endswith("parse_grok_rules::parse_pattern"):
+                sinks += 1
+                chk.instance(rid, {"function": n, "sink": cal, "site": b.loc(t)}, ok=True)
+            if STR_REWRITE.match(cal):
+                d = {"function": n, "rewrite": cal, "site": b.loc(t)}
+                chk.instance(rid, d, ok=False)
+                chk.violation(rid, b.file, n, "rule text rewritten by %s" % cal.rsplit("::", 1)[1],
+                              "%s calls %s on the way from the caller's rule list to parse_pattern: the compiled regex is no longer the anchored form of the rule as "
+                              "written, so a literal-only rule with e.g. edge whitespace (`\"foo \"`) stops matching exactly its own text" % (b.loc(t), cal), detail=d)
+    if sinks == 0:
+        chk.fail_closed(rid, "parse_grok_rules no longer calls parse_pattern from its own body or closures: the rule text takes another route; re-anchor R32d")
